@@ -370,7 +370,31 @@ def do_setup():
     return 0 if (ok and ok1 and ok2) else 1
 
 
-def lean_phase(pid, cfg):
+def lean_closure(modules):
+    """The property's modules and every Mav.* module they import (transitively), Gen tables included."""
+    seen, todo = [], list(modules)
+    while todo:
+        m = todo.pop()
+        if m in seen:
+            continue
+        path = os.path.join(LEAN, *m.split(".")) + ".lean"
+        if not os.path.exists(path):
+            continue
+        seen.append(m)
+        for imp in re.findall(r"^import (Mav\.\S+)", open(path).read(), re.M):
+            todo.append(imp)
+    return sorted(seen)
+
+
+def recheck(modules):
+    """Independent re-check of the compiled declarations (leanchecker replays every declaration of the .olean files through the
+    kernel). Returns (ok, text)."""
+    mods = lean_closure(modules)
+    rc, out = sh(["lake", "env", "leanchecker"] + mods, cwd=LEAN, timeout=3600)
+    return rc == 0, (f"{len(mods)} modules re-checked" if rc == 0 else out[-800:])
+
+
+def lean_phase(pid, cfg, tier="quick"):
     """Returns dict(obligations, discharged, problems[list of str], extra_axioms, gen_msg)."""
     problems = []
     ok, gmsg = regenerate()
@@ -388,8 +412,13 @@ def lean_phase(pid, cfg):
     forb = grep_forbidden()
     if forb:
         problems.append("forbidden tokens in Lean sources: " + "; ".join(forb[:5]))
+    rechecked = None
+    if okb and tier == "thorough":
+        okr, rechecked = recheck(cfg["lean"])
+        if not okr:
+            problems.append("leanchecker (independent kernel re-check of the compiled modules) failed: " + rechecked)
     return dict(theorems=thms, obligations=len(thms), discharged=clean if okb else 0, problems=problems,
-                extra_axioms=extra, gen=gmsg)
+                extra_axioms=extra, gen=gmsg, rechecked=rechecked)
 
 
 def crash_key(cfg, err):
@@ -414,7 +443,7 @@ def classify(pid, cfg, op, impl, spec):
 def do_check(pid, cfg, tier, seed):
     t0 = time.time()
     RACE[0] = bool(cfg.get("race"))
-    lp = lean_phase(pid, cfg)
+    lp = lean_phase(pid, cfg, tier)
     okh, hout = build_harness()
     corr_problems = []
     crashes = []
@@ -596,7 +625,7 @@ def do_check(pid, cfg, tier, seed):
                   distribution=stats, model_diffs=len(model_diffs), spec_diffs=len(spec_diffs),
                   known_findings_hit=sorted(known_hits), partial=cfg.get("partial", []),
                   timing_flakes_not_confirmed=flakes, differences_not_reproduced_on_rerun=not_reproduced,
-                  tie_g=lp["gen"][-300:]),
+                  tie_g=lp["gen"][-300:], independent_recheck=lp.get("rechecked") or "thorough tier only (lake env leanchecker over the property's modules and their imports)"),
               assumptions=cfg.get("assumptions", []), wall_s=round(time.time() - t0, 1),
               violations=1 if violation else 0)
     write_evidence(pid, ev)
